@@ -89,6 +89,19 @@ CLAIMED.update({
         design="8/C05"),
 })
 
+CLAIMED.update({
+    "C08": dict(
+        text=("Theorems about Http.serve (serveJSON + getIdentity + dispatch + status mapping): a request failing any gate (method, content type, no-browsers header, "
+              "unidentifiable caller, undecodable body) gets a non-2xx status, leaves state and audit log untouched and carries one of eight constant bodies; an accepted "
+              "request is exactly one DB.step with the identified caller; 200/304/403/404/other mapping; delete of an absent secret is 200; every non-200 body is a constant; "
+              "the identity is exactly the grants under the secrets capability (https form only when the first is empty) and the recorded principal is that identity; the client "
+              "maps 404/403/304 to its sentinels; V=0 is ignored by dispatch and short-circuited by the client. Tie: the real handlers driven in-process with generated "
+              "requests and WhoIs answers, half of the well-formed ones through the real setec.Client; status, body, state and audit records compared with the model."),
+        note=COMMON_NOTE + "Modelled, not verified: net/http, encoding/json text layer, tailcfg.UnmarshalCapJSON.",
+        technique="Lean 4 theorems over the decision logic of the front door + differential requests through the real mux and client",
+        design="8/C08"),
+})
+
 NOT_YET = {}
 
 def manifest():
